@@ -1,7 +1,7 @@
 """Engine registry (lazy imports so that one engine's import error cannot hide another)."""
 import importlib
 
-NAMES = ("quadsim", "progsim", "recsim", "rngsim", "wcssim", "htmsim")
+NAMES = ("quadsim", "progsim", "recsim", "rngsim", "wcssim", "htmsim", "ownsim")
 _cache = {}
 
 
